@@ -1185,6 +1185,21 @@ func c19ExtractAcctCode(repo string) (string, string, error) {
 	}
 	ow := c19TopFunc(fi, "OnWithStreamHandle")
 	if ow == nil {
+		// under another name: the only generic function with five parameters whose fourth makes n copies
+		ow = c19OnlyFunc(fi, func(fn *ast.FuncDecl) bool {
+			if fn.Recv != nil || fn.Type.TypeParams == nil {
+				return false
+			}
+			var ts []string
+			for _, fl := range fn.Type.Params.List {
+				for range fl.Names {
+					ts = append(ts, c19Squash(types.ExprString(fl.Type)))
+				}
+			}
+			return len(ts) == 5 && strings.HasPrefix(ts[3], "func(int)[]")
+		})
+	}
+	if ow == nil {
 		return "", "", fmt.Errorf("internal/callbacks.OnWithStreamHandle not found")
 	}
 	// the functions are looked up by name and, when they carry another name (a rename), by what they are:
